@@ -64,7 +64,12 @@ func valEqual(a, b sqlmodel.Value) bool {
 		if x == y {
 			return true
 		}
-		return math.Abs(x-y) <= 1e-9*math.Max(math.Abs(x), math.Abs(y))
+		// The generated doubles are dyadic rationals whose sums are exact, so
+		// this tolerance only absorbs text round trips. It must stay far below
+		// the smallest difference between two distinct generated sums (0.125 at
+		// magnitude 1e10, i.e. 1.25e-11 relative): a looser tolerance would let
+		// the greedy matching below pair a row with a different reference row.
+		return math.Abs(x-y) <= 1e-13*math.Max(math.Abs(x), math.Abs(y))
 	}
 	strish := func(v sqlmodel.Value) bool { return v.K == sqlmodel.KString || v.K == sqlmodel.KTime }
 	if strish(a) != strish(b) {
